@@ -208,7 +208,7 @@ func (i *Iter) Advance() Type {
 		i.off++
 		i.cur = v & JSONVALUEMASK
 		if i.t == TagNop {
-			i.off += int(i.cur)
+			i.off += int(i.cur) - 1
 			continue
 		}
 		break
@@ -310,7 +310,7 @@ func (i *Iter) AdvanceIter(dst *Iter) (Type, error) {
 			if i.cur <= 0 {
 				return TypeNone, errors.New("invalid nop skip")
 			}
-			i.off += int(i.cur)
+			i.off += int(i.cur) - 1
 			continue
 		}
 		break
